@@ -977,9 +977,9 @@ def shrink(shape, still_fails_batch, max_rounds=60):
 # comment placement hazards (C16 findings): predicates on the slot a comment is attached to and its path in the AST
 # ---------------------------------------------------------------------------------------------
 
-def comment_hazards(slot, path):
+def comment_hazards(slot, path, c0=()):
     """ids of the C16 findings whose classifier holds for a comment attached at `slot` with AST `path`
-    (frames as printed by the driver, see harness/src/bin/c06.rs)"""
+    (frames as printed by the driver, see harness/src/bin/c06.rs); c0 = all attached comments of the document"""
     hz = []
     groups = [f for f in path if f["f"] == "group"]
     last = path[-1] if path else None
@@ -987,7 +987,9 @@ def comment_hazards(slot, path):
         top = len(path) == 2 and path[0]["f"] == "rule"
         # Type::fmt trims the line break of the first choice's trailing comment; with more than two choices the layout
         # starts the next choice on a new line anyway
-        if last["i"] == 0 and (last["n"] == 2 or (last["n"] == 1 and not top)):
+        next_has_leading = any(x[0] == "choice.before" and x[2][:-1] == path[:-1] and x[2][-1].get("f") == "type" and x[2][-1].get("i") == 1
+                               for x in c0)
+        if last["i"] == 0 and (last["n"] == 2 or (last["n"] == 1 and not top) or next_has_leading):
             hz.append("kf-c16-first-choice-trailing-comment")
     if slot == "grpchoice.before" and last and last["f"] == "group" and last["ne"] <= 1 and not last["doc"]:
         hz.append("kf-c16-grpchoice-comment-dropped")
@@ -1007,8 +1009,571 @@ def comment_hazards(slot, path):
             break
     if node is not None:
         g = path[node]
-        if slot == "choice.after" and not g["doc"] and 2 <= g["ne"] <= 3:
-            hz.append("kf-c16-entry-rendering-trimmed")
         if g["e"] == g["ne"] - 1 and g["gc"] > 0 and g["ngc"] == 2:
             hz.append("kf-c16-last-comment-of-second-group-choice")
     return hz
+
+
+# ---------------------------------------------------------------------------------------------
+# literal catalogue: Fmt/Render.v against the real Display impls
+# ---------------------------------------------------------------------------------------------
+
+def float_decimal(f):
+    """(neg, m, e) with value = (-1)^neg * m * 10^e, m not divisible by 10 (0 -> (neg,0,0)): the shortest round-trip
+    digits, obtained from Python's repr (David Gay's algorithm; Rust's Grisu/Dragon yields the same shortest digits)"""
+    neg = struct.pack(">d", f)[0] >= 0x80
+    r = repr(abs(f))
+    mant, _, ex = r.partition("e")
+    ex = int(ex) if ex else 0
+    ip, _, fp = mant.partition(".")
+    digits = (ip + fp).lstrip("0")
+    e = ex - len(fp)
+    if not digits:
+        return neg, 0, 0
+    stripped = digits.rstrip("0")
+    e += len(digits) - len(stripped)
+    return neg, int(stripped), e
+
+
+def literal_catalogue(rng, n_random):
+    """list of (class, driver line, oracle line, source spelling for the document-level check or None)"""
+    cat = []
+    for u in UINTS + [str(rng.randrange(1 << rng.choice([4, 8, 16, 32, 63, 64]))) for _ in range(n_random)]:
+        cat.append(("uint", "L\tU\t" + u, "L\tU\t" + u, u))
+        cat.append(("uint.value", "L\tVU\t" + u, "L\tU\t" + u, None))
+    for i in NINTS + ["0", "5", "9223372036854775807"] + [str(-rng.randrange(1, 1 << rng.choice([4, 8, 16, 32, 63]))) for _ in range(n_random)]:
+        src = i if i.startswith("-") else ("-0" if i == "0" else None)     # a non-negative IntValue has no spelling but -0
+        cat.append(("int", "L\tI\t" + i, "L\tI\t" + i, src))
+        cat.append(("int.value", "L\tVI\t" + i, "L\tI\t" + i, None))
+    floats = FLOATS_OK + FLOATS_INTEGRAL + FLOATS_BIG + [-0.0, float("inf"), float("-inf"), 5e-324, 2.2250738585072014e-308,
+                                                          1.7976931348623157e308, 0.1 + 0.2, 1e22, 1e23, 9007199254740993.0, 1e-5, 123e-20]
+    for _ in range(n_random * 3):
+        c = rng.random()
+        if c < 0.5:
+            f = struct.unpack(">d", struct.pack(">Q", rng.getrandbits(64)))[0]
+            if f != f:
+                continue
+        elif c < 0.8:
+            f = rng.randrange(-(1 << 20), 1 << 20) / rng.choice([1, 2, 4, 8, 10, 100, 1000, 3, 7])
+        else:
+            f = float(rng.randrange(-(1 << 30), 1 << 30))
+        floats.append(f)
+    for f in floats:
+        bits = f64_bits(f)
+        if f in (float("inf"), float("-inf")):
+            ol = "L\tF\tinf\t%d" % (1 if f < 0 else 0)
+        else:
+            neg, m, e = float_decimal(f)
+            ol = "L\tF\t%d\t%d\t%d" % (1 if neg else 0, m, e)
+        cat.append(("float", "L\tF\t" + bits, ol, float_src(bits)))
+        cat.append(("float.value", "L\tVF\t" + bits, ol, None))
+    texts = TEXTS_OK + TEXTS_ESC + ["\u0000", "a\rb", "\u007f", "퟿\U0010ffff"]
+    for _ in range(n_random):
+        texts.append("".join(rng.choice(['a', 'b', ' ', ';', '"', '\\', "'", 'é', '😀', '\n', '/', '#', 'n', 'u']) for _ in range(rng.randrange(0, 8))))
+    for t in texts:
+        h = t.encode("utf-8").hex()
+        cat.append(("text", "L\tT\t" + h, "L\tT\t" + h, text_src(t)))
+        cat.append(("text.value", "L\tVT\t" + h, "L\tT\t" + h, None))
+    for b in BYTES_U + [b"it's", b"'"]:
+        s = b.decode()
+        src = ("'" + s + "'") if "'" not in s else ('h"' + s + '"' if '"' not in s else None)
+        cat.append(("bytes.utf8", "L\tBU\t" + b.hex(), "L\tBU\t" + b.hex(), src))
+        cat.append(("bytes.utf8.value", "L\tVBU\t" + b.hex(), "L\tBU\t" + b.hex(), None))
+    raws = BYTES_RAW + [bytes(rng.randrange(256) for _ in range(rng.randrange(0, 12))) for _ in range(n_random)] + \
+        [bytes([x]) for x in (0x3e, 0x3f, 0xfb, 0xff)] + [bytes([0xfb, 0xef, 0xbe]), bytes([0xff, 0xff, 0xff, 0xfe])]
+    for b in raws:
+        cat.append(("bytes.hex", "L\tBH\t" + b.hex(), "L\tBH\t" + b.hex(), "h'" + b.hex() + "'"))
+        cat.append(("bytes.hex.value", "L\tVBH\t" + b.hex(), "L\tBH\t" + b.hex(), None))
+        cat.append(("bytes.b64", "L\tBB\t" + b.hex(), "L\tBB\t" + b.hex(), "b64'" + base64.urlsafe_b64encode(b).decode().rstrip("=") + "'"))
+        cat.append(("bytes.b64.value", "L\tVBB\t" + b.hex(), "L\tBB\t" + b.hex(), None))
+    return cat
+
+
+def marker_catalogue():
+    """(class, driver line, oracle line, document exercising the marker, expected flag meaning)"""
+    cat = []
+    for o in ["?", "*", "+"]:
+        cat.append(("occur", "L\tO\t" + o, "O\t" + o, "a = [%s int]" % o))
+    bounds = ["0", "1", "2", "10", "18446744073709551615"]
+    for lo in bounds + ["-"]:
+        for hi in bounds + ["-"]:
+            src = None if lo == "-" and hi == "-" else "a = [%s*%s int]" % ("" if lo == "-" else lo, "" if hi == "-" else hi)
+            cat.append(("occur", "L\tO\t%s\t%s" % (lo, hi), "O\tn\t%s\t%s" % (lo, hi), src))
+    for n in ["-", "0", "1", "23", "24", "32", "55799", "4294967295", "18446744073709551615"]:
+        cat.append(("tag", "L\tG6\t" + n, "G\t6\t" + n, None))
+        for mt in [0, 1, 2, 3, 4, 5, 7]:
+            cat.append(("major", "L\tGM\t%d\t%s" % (mt, n), "G\tM\t%d\t%s" % (mt, n), "a = #%d%s" % (mt, "" if n == "-" else "." + n)))
+    cat.append(("any", "L\tGA", "G\tA", "a = #"))
+    for name in CTL_NAMES_PEG:
+        cat.append(("ctl", "L\tC\t." + name, "C\t" + name.encode().hex(), "a = tstr .%s b" % name))
+    for s in (0, 1, 2):
+        cat.append(("ident", "L\tN\t%d" % s, "N\t0\t%d\t78" % s, None))
+        cat.append(("unwrap", "L\tW\t%d" % s, "N\t1\t%d\t78" % s, None))
+        cat.append(("gname", "L\tA\t%d" % s, "N\t2\t%d\t78" % s, None))
+    for b in (0, 1):
+        cat.append(("cut", "L\tX\t%d" % b, "X\t%d" % b, None))
+        cat.append(("rangeop", "L\tRO\t%d" % b, "R\t%d" % b, None))
+    return cat
+
+
+def unwrap_L(o):
+    return unhex(o[3:]) if o.startswith("OK ") else o
+
+
+# ---------------------------------------------------------------------------------------------
+# comments in documents (shared with C16)
+# ---------------------------------------------------------------------------------------------
+
+COMMENT_TEXTS = [" c", "", " has ; semi", ' "quoted" ', " 'q' ", " é😀", " a = int", " // /", ";;", " x ", " ]})", " #6.1(", "\t tab"]
+
+
+def make_comments(rng, rules, gaps, uniq_start=0):
+    """comments dict for render_tokens: one comment per listed gap, texts made unique by a numeric suffix"""
+    out = {}
+    for k, gp in enumerate(gaps):
+        out.setdefault(gp, []).append("%s~%d" % (rng.choice(COMMENT_TEXTS), uniq_start + k))
+    return out
+
+
+def all_gaps(rules):
+    return [(ri, gi) for ri, t in enumerate(rules) for gi in range(len(t) + 1)]
+
+
+def remove_comment(text, ctext):
+    """drop one comment (text after the ';') from a document"""
+    i = text.find(";" + ctext)
+    if i < 0:
+        return text
+    return text[:i] + text[i + 1 + len(ctext):]
+
+
+def comment_verdict(base_shape, src_comments, r):
+    """C16 checks (pre)(d)(e)(f) on one round-trip record; comments are compared modulo trailing blanks
+    (interpretive decision, design.d/C16.md)"""
+    src = sorted(c.rstrip() for c in src_comments)
+    if r.get("panic"):
+        return "panic"
+    if not r["ok0"]:
+        return "comment-rejected"
+    if r["s0"] != base_shape:
+        return "comment-changes-parse"
+    att = sorted(x[1].rstrip() for x in r["c0"])
+    for a in set(att):
+        if att.count(a) > src.count(a):
+            return "attached-not-source"
+    if not r["ok1"]:
+        return "print-rejected"
+    if r["s1"] != base_shape:
+        return "shape-diff"
+    if sorted(k.rstrip() for k in (r["k1"] or [])) != att:
+        return "printed-comments-differ"
+    return "ok"
+
+
+def hazards_of(r):
+    """{comment text: [finding ids]} for the comments attached in the source AST"""
+    return {x[1]: comment_hazards(x[0], x[2], r.get("c0", [])) for x in r.get("c0", [])}
+
+
+def slots_of(c):
+    return sorted((x[0], x[1].rstrip(), json.dumps(x[2], sort_keys=True)) for x in c)
+
+
+# ---------------------------------------------------------------------------------------------
+# the check
+# ---------------------------------------------------------------------------------------------
+
+def coq_expr_of(line):
+    """Gallina expression (of type list N) computing the oracle's answer to `line`"""
+    p = line.split("\t")
+    cl = lambda h: common.coq_list(list(bytes.fromhex(h)))
+    opt = lambda x: "None" if x == "-" else "(Some %s)" % x
+    if p[0] == "L":
+        k = p[1]
+        if k == "U":
+            return "lit_line (LUint %s)" % p[2]
+        if k == "I":
+            return "lit_line (LInt (%s)%%Z)" % p[2]
+        if k == "F":
+            if p[2] == "inf":
+                return "lit_line (LFloat (FInf %s))" % ("true" if p[3] == "1" else "false")
+            return "lit_line (LFloat (FFin %s %s (%s)%%Z))" % ("true" if p[2] == "1" else "false", p[3], p[4])
+        if k == "T":
+            return "lit_line (LText %s)" % cl(p[2])
+        return "lit_line (LBytes %s %s)" % (k, cl(p[2]))
+    if p[0] == "O":
+        if p[1] in "?*+":
+            return "occur_line %s" % {"?": "OOpt", "*": "OStar", "+": "OPlus"}[p[1]]
+        return "occur_line (OExact %s %s)" % (opt(p[2]), opt(p[3]))
+    if p[0] == "G":
+        if p[1] == "6":
+            return "tag_line (TTagged %s)" % opt(p[2])
+        if p[1] == "M":
+            return "tag_line (TMajor %s %s)" % (p[2], opt(p[3]))
+        return "tag_line TAny"
+    if p[0] == "C":
+        return "ctl_line %s" % cl(p[1])
+    if p[0] == "N":
+        return "marked_line %s %s %s" % (p[1], p[2], cl(p[3]))
+    if p[0] == "X":
+        return "cut_line %s" % ("true" if p[1] == "1" else "false")
+    if p[0] == "R":
+        return "rangeop_line %s" % ("true" if p[1] == "1" else "false")
+    if p[0] == "K":
+        return "lex_comments_render %s" % cl(p[1] if len(p) > 1 else "")
+    if p[0] == "M":
+        def recs(s, f):
+            return "[" + "; ".join(f(x.split(",")) for x in s.split(";") if x) + "]"
+        toks = recs(p[1], lambda a: "{| c_lo := %s; c_hi := %s; c_line := %s; c_pure := %s; c_id := %s |}" % (a[0], a[1], a[2], "true" if a[3] == "1" else "false", a[4]))
+        anch = recs(p[2], lambda a: "{| a_lo := %s; a_hi := %s; a_line_hi := %s; a_kind := %s |}" % (a[1], a[2], a[3], a[0]))
+        cont = recs(p[3], lambda a: "(%s, %s)" % (a[0], a[1]))
+        return "merge_render %s %s %s" % (toks, anch, cont)
+    raise ValueError(line)
+
+
+VM_PREAMBLE = "From Cddl Require Import Base.Bytes Fmt.Render Fmt.LitParse Fmt.Oracle Comments.Merge Comments.Lex.\nOpen Scope N_scope."
+
+WITNESSES = {
+    "kf-c06-float-integral": ["a = 1.0", "a = 1.5e3", "a = 0x1p4", "a = -0.0", "a = 1e999", "a = 1e21"],
+    "kf-c06-int-zero": ["a = -0"],
+    "kf-c06-text-not-escaped": ['a = "q\\"x"', 'a = "a\\\\b"'],
+    "kf-c06-bytes-quote": ['a = h"it\'s"'],
+    "kf-c06-unwrap-dropped": ["a = ~b\nb = [int]"],
+    "kf-c06-tag-without-type": ["a = #6", "a = #6.32"],
+    "kf-c06-operator-glued-to-name": ["a = &b .size 1\nb = (x: 1)"],
+    "kf-c06-control-glued-to-controller": ['a = "x" .abnf bstr'],
+    "kf-c06-comma-dropped-after-hash": ["a = [#, 1*2 int]", "a = [#1, (int)]"],
+    "kf-c06-newline-in-literal-deleted": ['a = [ "x\ny" // int // tstr ]'],
+    "kf-c06-comment-breaks-reparse": ["a = int ; c1\n / tstr"],
+    "kf-c06-comment-migrates": ["a = int\n; c\n/ tstr"],
+}
+
+
+def fix_shape(drv, shape):
+    """neutralise every classified construct (to a fixpoint); returns (ids, neutralised shape)"""
+    ids = classify(shape)
+    cur = shape
+    allids = list(ids)
+    for _ in range(4):
+        if not ids:
+            break
+        cur = neutralise(cur, ids)
+        # re-read the shape through the parser (the neutralised text may normalise differently)
+        ids = classify(cur)
+        allids += [i for i in ids if i not in allids]
+    return allids, cur
+
+
+def comment_culprits(r):
+    """comments (by text) that a C16 hazard classifier holds for, and comments that change slot between parse 1 and 2"""
+    hz = {t: h for t, h in hazards_of(r).items() if h}
+    mig = []
+    if r.get("ok1") and r.get("s1") == r.get("s0"):
+        a = {x[1]: (x[0], json.dumps(x[2], sort_keys=True)) for x in r["c0"]}
+        b = {x[1]: (x[0], json.dumps(x[2], sort_keys=True)) for x in r["c1"]}
+        ra = {k.rstrip(): v for k, v in a.items()}
+        rb = {k.rstrip(): v for k, v in b.items()}
+        mig = [k for k in a if rb.get(k.rstrip()) != ra[k.rstrip()]]
+    return hz, mig
+
+
+def explain_comment_failures(drv, items, rounds=4):
+    """items: list of (text, record) of failing documents with comments. Repeatedly removes the comments a known comment
+    finding's classifier holds for (C16 hazard, or a comment that is re-attached to another slot after printing) and runs the
+    rest again. Returns a list of (text, record, ids, final verdict): ids = the findings used; final verdict "ok" = explained."""
+    state = [{"t": t, "r": r, "cur_t": t, "cur_r": r, "ids": [], "done": None} for t, r in items]
+    for _ in range(rounds):
+        batch = []
+        for st in state:
+            if st["done"] is not None:
+                continue
+            hz, mig = comment_culprits(st["cur_r"])
+            if not hz and not mig:
+                st["done"] = verdict(st["cur_r"])
+                continue
+            for c, hs in hz.items():
+                st["ids"] += [h for h in hs if h not in st["ids"]]
+            if mig and "comment-migrates" not in st["ids"]:
+                st["ids"].append("comment-migrates")
+            t2 = st["cur_t"]
+            for c in set(list(hz) + mig):
+                t2 = remove_comment(t2, c)
+            st["cur_t"] = t2
+            batch.append(st)
+        if not batch:
+            break
+        for st, r2 in zip(batch, roundtrips(drv, [st["cur_t"] for st in batch])):
+            st["cur_r"] = r2
+            if verdict(r2) == "ok":
+                st["done"] = "ok"
+    for st in state:
+        if st["done"] is None:
+            st["done"] = verdict(st["cur_r"])
+    return [(st["t"], st["r"], st["ids"], st["done"], st["cur_t"], st["cur_r"]) for st in state]
+
+
+def run(tier, seed):
+    res = Result(PROP, tier, seed)
+    proved = common.prove(res, PROP, PROP_FILE, EXTRACT)
+    drv = common.build_harness("c06")
+    orc = common.build_oracle("fmt", ["fmt_model"])
+    rng = random.Random(seed)
+    quick = tier == "quick"
+    wide = 1 if proved else 3
+    open_findings = {kf["id"]: kf for kf in common.known_findings(PROP)}
+    evaluations = 0
+    hist = {}
+    known_hits = {}
+
+    def hit(fid):
+        known_hits[fid] = known_hits.get(fid, 0) + 1
+        if fid in open_findings:
+            res.known(open_findings[fid])
+
+    # ---- A. literal and marker renderers: model vs code, and the round-trip flag vs the code's own round trip
+    cat = literal_catalogue(rng, (60 if quick else 1500) * wide) + marker_catalogue()
+    impl = common.run_tool(drv, [c[1] for c in cat])
+    model = [bytes.fromhex(x) if x != "?" else b"?" for x in common.run_tool(orc, [c[2] for c in cat])]
+    docs = [("a = " + c[3]) if (c[3] is not None and not c[3].startswith("a = ")) else c[3] for c in cat]
+    rts = roundtrips(drv, [d for d in docs if d is not None])
+    rt_iter = iter(rts)
+    lit_stats = {}
+    for c, a, m, d in zip(cat, impl, model, docs):
+        evaluations += 1
+        cls = c[0]
+        st = lit_stats.setdefault(cls, {"n": 0, "model_roundtrips": 0})
+        st["n"] += 1
+        rendering, _, flag = m.rpartition(b"\t")
+        if not _:
+            rendering, flag = m, b""
+        flag = flag.decode()
+        got = bytes.fromhex(a[3:]) if a.startswith("OK ") else a.encode()
+        if cls == "tag":
+            rendering += b"(x)"          # the driver prints the whole TaggedData node with the type `x`
+        if cls == "cut":
+            rendering = b"x" + rendering  # ... and the whole member key `x`
+        if got != rendering:
+            res.violation("renderer model and code differ on %s: code prints %r, Fmt/Render.v gives %r" % (c[1].replace("\t", " "), got, rendering),
+                          {"kind": "literal", "driver_line": c[1], "oracle_line": c[2], "impl": a, "model": m.hex()})
+        if flag == "1":
+            st["model_roundtrips"] += 1
+        if d is not None:
+            r = next(rt_iter)
+            evaluations += 1
+            real = verdict(r) == "ok"
+            if flag in ("0", "1") and real != (flag == "1"):
+                res.violation("literal round trip: model says %s for %s but the crate's parse(print(parse(%r))) is %s"
+                              % ("round-trips" if flag == "1" else "does not round-trip", c[2].replace("\t", " "), d, verdict(r)),
+                              {"kind": "doc", "text": d, "oracle_line": c[2], "model": m.hex()})
+
+    # ---- B. witnesses of the open findings
+    for fid, texts in WITNESSES.items():
+        rs = roundtrips(drv, texts)
+        failing = [t for t, r in zip(texts, rs) if verdict(r) not in ("ok", "rejected")]
+        evaluations += len(texts)
+        if fid in open_findings:
+            if failing:
+                hit(fid)
+            else:
+                res.notes.append("finding %s apparently repaired: none of its witnesses fails any more" % fid)
+        elif failing:
+            res.violation("witness of %s fails but the finding is not listed as open: %r" % (fid, failing[0]), {"kind": "doc", "text": failing[0]})
+
+    # ---- C. generated and corpus documents without comments
+    g = Gen(rng, defects=0.06)
+    n_docs = (2500 if quick else 150000) * wide
+    shapes = []
+    while len(shapes) < n_docs:
+        d = g.doc(depth=rng.choice([0, 1, 1, 1, 2, 2, 3]))
+        if len(json.dumps(d)) < 6000:
+            shapes.append(d)
+    texts = [render_shape(s, rng if i % 2 else None) for i, s in enumerate(shapes)]
+    corpus = corpus_texts()
+    rs = roundtrips(drv, texts + [t for _, t in corpus])
+    verdicts = {}
+    distinct = set()
+    pending = []       # (text, record) failing, to classify
+    corpus_free = []
+    for i, (t, r) in enumerate(zip(texts + [t for _, t in corpus], rs)):
+        evaluations += 1
+        v = verdict(r)
+        verdicts[v] = verdicts.get(v, 0) + 1
+        if r.get("ok0") and len(t) > 12:
+            distinct.add(t)
+        if v in ("ok", "rejected"):
+            if i >= len(texts) and r.get("ok0") and r["c0"]:
+                corpus_free.append(r["s0"])
+            continue
+        if v == "panic":
+            res.violation("printing or re-parsing panicked on %r" % t[:200], {"kind": "doc", "text": t})
+            continue
+        pending.append((t, r))
+    # comment-free renderings of the corpus files that carry comments
+    rs_cf = roundtrips(drv, [render_shape(s) for s in corpus_free])
+    for s, r in zip(corpus_free, rs_cf):
+        evaluations += 1
+        if verdict(r) != "ok" or r["s0"] != s:
+            pending.append((render_shape(s), r))
+    # classification: neutralise the classified constructs, the rest of the document must pass
+    fixed = []
+    for t, r in pending:
+        s0 = r["s0"]
+        if r["c0"]:
+            # a corpus file with comments: judge the comment-free rendering here, the comments in part D
+            ids, cur = fix_shape(drv, s0)
+        else:
+            ids, cur = fix_shape(drv, s0)
+        fixed.append((t, r, ids, cur))
+    rs2 = roundtrips(drv, [render_shape(cur) for _, _, _, cur in fixed])
+    unexplained = []
+    for (t, r, ids, cur), r2 in zip(fixed, rs2):
+        evaluations += 1
+        v2 = verdict(r2)
+        if ids and v2 == "ok":
+            for i in ids:
+                hit(i)
+            continue
+        if not ids and r["c0"]:
+            continue          # corpus file whose failure needs its comments: handled in part D
+        unexplained.append((t, r, ids, cur, r2))
+    for t, r, ids, cur, r2 in unexplained[:5]:
+        def still(shs):
+            rr = roundtrips(drv, [render_shape(x) for x in shs])
+            return [verdict(x) not in ("ok", "rejected") and not classify(x["s0"]) for x in rr]
+        small = shrink(cur, still, 80) if verdict(r2) not in ("ok", "rejected") else cur
+        st = render_shape(small)
+        res.violation("formatting does not preserve the document (%s)%s: %r prints as %r" %
+                      (verdict(r), " even with the known-finding constructs %s neutralised" % ids if ids else "", st[:300],
+                       (roundtrips(drv, [st])[0].get("p1") or "")[:300]),
+                      {"kind": "doc", "text": st, "original": t})
+    for _ in unexplained[5:]:
+        res.violation("further unexplained formatting failures (%d in total)" % len(unexplained), {"kind": "count"}, no_input=True)
+        break
+
+    # ---- D. documents WITH comments: corpus files as they are, generated documents with random comment subsets
+    n_c = (900 if quick else 40000) * wide
+    base_shapes = []
+    while len(base_shapes) < n_c // 3:
+        s = g.doc(nrules=rng.choice([1, 2, 3]), depth=rng.choice([0, 1, 1, 2]))
+        if len(json.dumps(s)) < 4000:
+            base_shapes.append(fix_shape(drv, s)[1])
+    base_rs = roundtrips(drv, [render_shape(s) for s in base_shapes])
+    ctexts, cmeta = [], []
+    for s, b in zip(base_shapes, base_rs):
+        if verdict(b) != "ok":
+            continue
+        rules = doc_tokens(b["s0"])
+        gaps = all_gaps(rules)
+        for _ in range(3):
+            chosen = rng.sample(gaps, min(len(gaps), rng.choice([1, 1, 2, 3, 5])))
+            cm = make_comments(rng, rules, chosen)
+            ctexts.append(render_tokens(rules, rng if rng.random() < 0.5 else None, cm, final_newline=rng.random() < 0.8))
+            cmeta.append(b["s0"])
+    for n, t in corpus:
+        ctexts.append(t)
+        cmeta.append(None)
+    rs = roundtrips(drv, ctexts)
+    cstats = {}
+    todo = []
+    for t, base, r in zip(ctexts, cmeta, rs):
+        evaluations += 1
+        v = verdict(r)
+        if r.get("ok0") and base is not None and r["s0"] != base:
+            v = "comment-changes-parse"
+        cstats[v] = cstats.get(v, 0) + 1
+        if v in ("ok", "rejected"):
+            continue
+        if v in ("panic", "comment-changes-parse"):
+            res.violation("%s on a document with comments: %r" % (v, t[:300]), {"kind": "doc", "text": t})
+            continue
+        todo.append((t, r))
+    bad_c = []
+    for t, r, ids, final, cur_t, cur_r in explain_comment_failures(drv, todo):
+        evaluations += 1
+        if final != "ok" and cur_r.get("ok0"):
+            # what is left fails although no comment finding applies: if its comment-free rendering fails too and is
+            # explained by the comment-free findings (part C), the comments are not the cause
+            sids, cur = fix_shape(drv, cur_r["s0"])
+            two = roundtrips(drv, [render_shape(cur_r["s0"]), render_shape(cur)]) if sids else []
+            if sids and verdict(two[0]) not in ("ok", "rejected") and verdict(two[1]) == "ok":
+                for i in sids:
+                    hit(i)
+                final = "ok"
+                if not ids:
+                    continue
+        if final == "ok" and ids:
+            if any(i.startswith("kf-c16-") for i in ids):
+                hit("kf-c06-comment-breaks-reparse")
+            if "comment-migrates" in ids:
+                hit("kf-c06-comment-migrates")
+            for i in ids:
+                known_hits["via " + i] = known_hits.get("via " + i, 0) + 1
+        else:
+            bad_c.append((t, r, verdict(r)))
+    for t, r, v in bad_c[:5]:
+        res.violation("formatting a document with comments fails (%s) and no known comment finding explains it: %r prints as %r"
+                      % (v, t[:300], (r.get("p1") or "")[:300]), {"kind": "doc", "text": t})
+
+    # ---- E. vm_compute slice: the extracted oracle equals evaluation inside Coq
+    sl = [c[2] for c in rng.sample(cat, 130)] + [c[2] for c in cat[:10]]
+    vm = common.vm_compute_slice(PROP, VM_PREAMBLE, [coq_expr_of(l) for l in sl])
+    orc_sl = common.run_tool(orc, sl, shards=1)
+    vm_bad = [(l, x, y) for l, x, y in zip(sl, vm, orc_sl) if x.encode("latin-1") != bytes.fromhex(y)]
+    if vm_bad:
+        res.violation("extracted oracle and vm_compute disagree on %r: %r vs %r" % vm_bad[0], {"kind": "extraction", "case": list(vm_bad[0])}, no_input=True)
+
+    if not proved and not res.violations:
+        res.violation(res.proof_broken, {"kind": "proof-obligation", "detail": res.proof_broken}, no_input=True)
+    res.coverage.update({
+        "evaluations": evaluations,
+        "distinct_nontrivial": len(distinct),
+        "rule": "documents: structure-directed random CDDL (sockets, generics, unwrap, cut, &, all occurrence forms, ranges, every control "
+                "operator, tags, every literal kind incl. integral/huge/negative-zero floats and texts with quotes/backslashes, nested groups, "
+                ">2 choices and >3 entries to reach the layout branches), rendered with canonical and with random blanks/newlines, plus every "
+                "*.cddl file of /repo as it is and re-rendered without comments; literals: catalogue + random values per kind, each rendered by "
+                "the real Display impl and by Fmt/Render.v, each also embedded in a document and round-tripped on the crate; "
+                "distinct_nontrivial = distinct accepted document texts longer than 12 characters",
+        "generator_histogram": g.hist,
+        "verdict_split_documents": verdicts,
+        "verdict_split_commented_documents": cstats,
+        "literal_classes": lit_stats,
+        "known_finding_hits": known_hits,
+        "corpus_files": len(corpus),
+        "vm_compute_slice": len(sl),
+        "samples": [{"text": t[:160], "verdict": verdict(r)} for t, r in list(zip(texts, rs))[:0]] + [{"text": t[:160]} for t in texts[:6]],
+    })
+    res.assumptions = [
+        "f64 Display digit generation (shortest round-trip digits) enters Fmt/Render.v as given decimal mantissa/exponent; only the layout "
+        "(fraction point, zero padding, no exponent) is modelled; checked against the crate for a float catalogue each run",
+        "data_encoding HEXLOWER / BASE64URL_NOPAD = RFC 4648 base16 / base64url without padding (Render.hexbytes, Render.b64_enc), checked each run",
+        "the 1.5 kLoC of layout heuristics in ast/mod.rs are NOT modelled: structural preservation is established differentially only",
+    ]
+    return res.finish()
+
+
+def replay(path):
+    r = json.load(open(path))["replay"]
+    drv = common.build_harness("c06")
+    common.coq_build(EXTRACT)
+    orc = common.build_oracle("fmt", ["fmt_model"])
+    if r.get("kind") == "literal":
+        print("impl  :", unwrap_L(common.run_tool(drv, [r["driver_line"]])[0]))
+        print("model :", bytes.fromhex(common.run_tool(orc, [r["oracle_line"]])[0]))
+        print("vm    :", common.vm_compute_slice(PROP, VM_PREAMBLE, [coq_expr_of(r["oracle_line"])])[0])
+        return 0
+    if r.get("text") is not None:
+        rr = roundtrips(drv, [r["text"]])[0]
+        print("source          :", repr(r["text"]))
+        print("verdict         :", verdict(rr))
+        if rr.get("ok0"):
+            print("printed         :", repr(rr.get("p1")))
+            print("shape(source)   :", json.dumps(rr.get("s0")))
+            print("shape(reparsed) :", json.dumps(rr.get("s1")))
+            print("printed again   :", repr(rr.get("p2")))
+            print("comments        :", [(x[0], x[1]) for x in rr.get("c0", [])], "->", [(x[0], x[1]) for x in rr.get("c1", [])] if rr.get("c1") is not None else None)
+            print("classifiers     :", classify(rr["s0"]), {k: v for k, v in hazards_of(rr).items() if v})
+        if r.get("oracle_line"):
+            print("model           :", bytes.fromhex(common.run_tool(orc, [r["oracle_line"]])[0]))
+        return 0
+    print(json.dumps(r, indent=1))
+    return 0
